@@ -144,6 +144,8 @@ pub struct BytecodeBuilder {
 
     /// Current source span (for source map)
     current_span: Option<Span>,
+    /// Number of block scopes (PushScope without its PopScope) open at the current emission point
+    scope_depth: usize,
 
     /// Function info (if compiling a function)
     function_info: Option<FunctionInfo>,
@@ -163,6 +165,7 @@ impl BytecodeBuilder {
             source_map: Vec::new(),
             registers: RegisterAllocator::new(),
             current_span: None,
+            scope_depth: 0,
             function_info: None,
             source_file: None,
         }
@@ -195,6 +198,24 @@ impl BytecodeBuilder {
         self.current_span = Some(span);
     }
 
+    /// Number of block scopes open at the current emission point
+    pub fn scope_depth(&self) -> usize {
+        self.scope_depth
+    }
+
+    /// Correct the tracked block-scope depth at a point reached by a jump rather than by fall-through
+    pub fn set_scope_depth(&mut self, depth: usize) {
+        self.scope_depth = depth;
+    }
+
+    /// Set the block-scope depth a pending `continue` restores (known together with its target)
+    pub fn patch_continue_scope_depth(&mut self, placeholder: JumpPlaceholder, depth: usize) {
+        if let Some(Op::Continue { scope_depth, .. }) = self.code.get_mut(placeholder.instruction_index)
+        {
+            *scope_depth = depth as u8;
+        }
+    }
+
     /// Clear the current source span
     pub fn clear_span(&mut self) {
         self.current_span = None;
@@ -203,6 +224,13 @@ impl BytecodeBuilder {
     /// Emit an instruction and return its index
     pub fn emit(&mut self, op: Op) -> usize {
         let index = self.code.len();
+
+        // Track the static block-scope depth (break/continue restore it at run time)
+        match op {
+            Op::PushScope => self.scope_depth += 1,
+            Op::PopScope => self.scope_depth = self.scope_depth.saturating_sub(1),
+            _ => {}
+        }
 
         // Add source map entry if we have a span
         if let Some(span) = self.current_span {
